@@ -141,7 +141,7 @@ func newEventFromUntrustedJSONV2(eventJSON []byte, roomVersion IRoomVersion) (PD
 		return nil, err
 	}
 
-	if err := checkID(res.eventFields.RoomID, "room", '!'); err != nil {
+	if err := checkRoomIDField(res.eventFields.RoomID); err != nil {
 		return nil, err
 	}
 
@@ -270,7 +270,7 @@ func newEventFromTrustedJSONV2(eventJSON []byte, redacted bool, roomVersion IRoo
 		return nil, err
 	}
 
-	if err := checkID(res.eventFields.RoomID, "room", '!'); err != nil {
+	if err := checkRoomIDField(res.eventFields.RoomID); err != nil {
 		return nil, err
 	}
 
@@ -286,7 +286,7 @@ func newEventFromTrustedJSONWithEventIDV2(eventID string, eventJSON []byte, reda
 		return nil, err
 	}
 
-	if err := checkID(res.eventFields.RoomID, "room", '!'); err != nil {
+	if err := checkRoomIDField(res.eventFields.RoomID); err != nil {
 		return nil, err
 	}
 
